@@ -79,7 +79,7 @@ def gen_stream(rng, maxbytes):
         size += 9 + len(fr[2])
     modes = {}
     for c in cids:
-        modes[c] = {"mode": rng.choice(("receive", "receive", "callback", "callback_dropped")), "receivers": rng.choice((1, 2, 3)),
+        modes[c] = {"mode": rng.choice(("receive", "receive", "callback", "callback_dropped", "callback_backlog")), "receivers": rng.choice((1, 2, 3)),
                     "waitclosers": rng.choice((0, 1, 2)), "attach": rng.choice(("before", "after"))}
     return {"cids": cids, "frames": frames, "modes": modes}
 
@@ -159,9 +159,27 @@ def run_one_cut(res, rng, prog, S, k, transport, variant, label):
         except BaseException as e:  # noqa
             logs[c]["wait"].append(type(e).__name__)
 
+    in_backlog = threading.Event()
+
     def attach(c):
         md = prog["modes"][c]
-        if md["mode"] == "callback":
+        if md["mode"] == "callback_backlog" and c not in backlog:
+            chans[c].setcallback(logs[c]["cb"].append, endmarker=END)
+        elif md["mode"] == "callback_backlog":
+            # the callback is slow on its first item: the connection loss is processed while setcallback still hands over the backlog
+            def slow(item, log=logs[c]["cb"]):
+                first = not log
+                log.append(item)
+                if first:
+                    in_backlog.set()
+                    time.sleep(0.05)
+
+            t = threading.Thread(target=lambda: chans[c].setcallback(slow, endmarker=END), daemon=True)
+            threads.append(t)
+            t.start()
+            res.count("cuts_during_slow_backlog_handover")
+            return
+        elif md["mode"] == "callback":
             chans[c].setcallback(logs[c]["cb"].append, endmarker=END)
         elif md["mode"] == "callback_dropped":
             # the common gw.remote_exec(..).setcallback(..) idiom: nobody keeps the channel object
@@ -175,13 +193,17 @@ def run_one_cut(res, rng, prog, S, k, transport, variant, label):
                 t = threading.Thread(target=receiver, args=(c, i), daemon=True)
                 threads.append(t)
                 t.start()
-        for i in range(md["waitclosers"] if md["mode"] != "callback_dropped" else 0):
+        for i in range(md["waitclosers"] if md["mode"] not in ("callback_dropped",) else 0):
             t = threading.Thread(target=waitcloser, args=(c, i), daemon=True)
             threads.append(t)
             t.start()
 
+    # (costs ~0.1 s per cut: done on every 16th cut point only, and only when a complete item precedes the cut;
+    #  on the other cuts such a channel is an ordinary callback channel)
+    pre_items, _e, _c = expected(prog["frames"], k)
+    backlog = [c for c in prog["cids"] if prog["modes"][c]["mode"] == "callback_backlog" and k % 16 == 0 and pre_items.get(c)]
     for c in prog["cids"]:
-        if prog["modes"][c]["attach"] == "before":
+        if prog["modes"][c]["attach"] == "before" and c not in backlog:
             attach(c)
     # play the peer: S[:k] in a generated chunking, then the cut
     data = S[:k]
@@ -190,6 +212,12 @@ def run_one_cut(res, rng, prog, S, k, transport, variant, label):
         n = rng.choice((1, 2, 9, 64, 4096, 1 << 20))
         sp.feed(data[p:p + n])
         p += n
+    if backlog:
+        # let the bytes be queued, start the slow hand-over, and cut the connection in the middle of it
+        time.sleep(0.01)
+        for c in backlog:
+            attach(c)
+        in_backlog.wait(0.2)
     if transport == "tcp":
         if variant == "reset":
             sp.sock.setsockopt(socket.SOL_SOCKET, socket.SO_LINGER, struct.pack("ii", 1, 0))
@@ -212,7 +240,7 @@ def run_one_cut(res, rng, prog, S, k, transport, variant, label):
         else:
             sp.close_peer()
     for c in prog["cids"]:
-        if prog["modes"][c]["attach"] == "after":
+        if prog["modes"][c]["attach"] == "after" and c not in backlog:
             attach(c)
     t0 = time.monotonic()
     blocked = False
@@ -231,7 +259,7 @@ def run_one_cut(res, rng, prog, S, k, transport, variant, label):
         md = prog["modes"][c]
         wi = want_items.get(c, [])
         lg = logs[c]
-        if md["mode"] in ("callback", "callback_dropped"):
+        if md["mode"] in ("callback", "callback_dropped", "callback_backlog"):
             from vlib import pairs as _p
 
             _p.wait_until(lambda: END in lg["cb"], 6)
